@@ -32,12 +32,12 @@ type drv struct {
 	last     rig.Result // result of the delivery in progress
 	lastBus  string
 	cur      core.Step
-	before   []string        // best chain hashes (above base) before the delivery
-	gdel     map[int]bool    // genuine body delivered
-	anyT     bool            // some tampered body delivered
-	rejected map[int]bool    // blocks whose tampered body the real node rejected by execution
-	pendRej  []int           // blocks the mechanism says failed to connect in this delivery
-	everSeen map[string]bool // <b|v> delivered before
+	before   []string       // best chain hashes (above base) before the delivery
+	gdel     map[int]bool   // genuine body delivered
+	anyT     bool           // some tampered body delivered
+	rejected map[int]bool   // blocks whose tampered body the real node rejected by execution
+	pendRej  []int          // blocks the mechanism says failed to connect in this delivery
+	tfate    map[int]string // what became of the tampered body of a block: fate:pid
 	stepIdx  int
 }
 
@@ -57,7 +57,7 @@ func (d *drv) Reset(env *core.Env, b *core.Behaviour) error {
 	}
 	d.rnd = rand.New(rand.NewSource(env.Seed*7919 + h + int64(env.OptInt("salt", 0))*104729))
 	d.ct, d.ts = nil, nil
-	d.gdel, d.rejected, d.everSeen = map[int]bool{}, map[int]bool{}, map[string]bool{}
+	d.gdel, d.rejected, d.tfate = map[int]bool{}, map[int]bool{}, map[int]string{}
 	d.anyT = false
 	d.pendRej = nil
 	d.stepIdx = 0
@@ -269,19 +269,22 @@ func (d *drv) observe(s core.Step) (any, any, error) {
 	} else {
 		d.anyT = true
 	}
+	if v == "t" && cls != "exist" {
+		fate := "stored-unexecuted"
+		switch {
+		case cls == "invalid":
+			fate = "executed-rejected"
+		case d.last.Orphan || expRet["orphan"] == true:
+			fate = "orphaned"
+		}
+		d.tfate[b] = fate + ":" + pid
+	}
 	if d.prop == "C27" {
 		var viol []any
 		clause := d.env.Opt("clause", "ab")
-		pos := "side"
-		switch {
-		case len(d.before) > 0 && string(ct.parentHash(b)) == d.before[len(d.before)-1]:
-			pos = "tip"
-		case expRet["orphan"] == true:
-			pos = "orphan"
-		}
 		kindOf := func(x int, vv string) string {
 			if vv == "t" {
-				return "tampered:" + tclass(ct.tkind[x])
+				return "tampered"
 			}
 			if ct.spec.Kind[x-1] != "ok" {
 				return "invalid:" + ct.spec.Kind[x-1]
@@ -295,7 +298,7 @@ func (d *drv) observe(s core.Step) (any, any, error) {
 			if v == "g" && ct.spec.Kind[b-1] == "ok" {
 				why = "valid-on-invalid-ancestor"
 			}
-			viol = append(viol, fmt.Sprintf("C27|rejected-block-changed-best-chain|delivered=%s|pid=%s|reply=%s|chain=%s", why, pid, cls, chainMove(d.before, after)))
+			viol = append(viol, fmt.Sprintf("C27|rejected-block-changed-best-chain|delivered=%s|chain=%s", why, chainMove(d.before, after)))
 		}
 		if strings.Contains(clause, "b") && fully {
 			ancDelivered := true
@@ -308,11 +311,14 @@ func (d *drv) observe(s core.Step) (any, any, error) {
 			inOrph := d.n.KnownOrphan(ct.hash[b])
 			switch {
 			case cls == "exist" && first:
-				viol = append(viol, fmt.Sprintf("C27|valid-block-refused-as-existing|earlier=%s|pos=%s|pid=%s", d.earlier(b), pos, pid))
-			case cls == "invalid" && ancDelivered:
-				viol = append(viol, fmt.Sprintf("C27|valid-block-rejected|earlier=%s|pos=%s|pid=%s", d.earlierAny(b), pos, pid))
+				// the node claims to have a block whose genuine body it never received
+				viol = append(viol, fmt.Sprintf("C27|valid-block-refused-as-existing|earlier=%s", d.earlier(b)))
+			case cls == "invalid" && ancDelivered && servedV[b] != "g":
+				// the failure is the block's own: what the node executed / keeps under its hash is not
+				// the genuine body just delivered (an error caused by an orphan child leaves served = g)
+				viol = append(viol, fmt.Sprintf("C27|valid-block-rejected-stale-body-executed|earlier=%s", d.earlierAny(b)))
 			case cls == "ok" && !inOrph && servedV[b] != "g":
-				viol = append(viol, fmt.Sprintf("C27|valid-block-accepted-but-other-body-stored|earlier=%s|pos=%s|pid=%s|served=%s", d.earlier(b), pos, pid, servedV[b][:1]))
+				viol = append(viol, fmt.Sprintf("C27|valid-block-accepted-but-other-body-stored|earlier=%s", d.earlier(b)))
 			}
 		}
 		// bookkeeping of real rejections: the delivered tampered body itself, or the block the
@@ -335,7 +341,7 @@ func (d *drv) observe(s core.Step) (any, any, error) {
 			sort.Ints(xs)
 			for _, x := range xs {
 				if servedV[x] == "t" {
-					viol = append(viol, fmt.Sprintf("C27|rejected-body-served-under-genuine-hash|tampered=%s|pid=%s", tclass(ct.tkind[x]), d.pidClassOf(x)))
+					viol = append(viol, fmt.Sprintf("C27|rejected-body-served-under-genuine-hash|%s", d.earlier(x)))
 					break
 				}
 			}
@@ -348,7 +354,6 @@ func (d *drv) observe(s core.Step) (any, any, error) {
 		}
 		chk["prop"] = viol
 	}
-	d.everSeen[fmt.Sprintf("%d|%s|%s", b, v, pid)] = true
 	return ret, chk, nil
 }
 
@@ -455,29 +460,13 @@ func tclass(k string) string {
 	return "tx-root" // subst, reorder
 }
 
-func (d *drv) pidClassOf(b int) string {
-	for k := range d.everSeen {
-		if strings.HasPrefix(k, fmt.Sprintf("%d|t|", b)) {
-			return k[strings.LastIndex(k, "|")+1:]
-		}
-	}
-	return "?"
-}
-
-// earlier describes what the node received under the hash of b before (tampered body: kind/pid).
+// earlier describes what the node received under the hash of b before and what it did with it:
+// tampered/<executed-rejected|stored-unexecuted|orphaned>:<pid class of that delivery>.
 func (d *drv) earlier(b int) string {
-	var out []string
-	for k := range d.everSeen {
-		p := strings.Split(k, "|")
-		if p[0] == fmt.Sprint(b) && p[1] == "t" {
-			out = append(out, "tampered:"+tclass(d.ct.tkind[b])+"/"+p[2])
-		}
+	if f, ok := d.tfate[b]; ok {
+		return "tampered/" + f
 	}
-	sort.Strings(out)
-	if len(out) == 0 {
-		return "nothing"
-	}
-	return strings.Join(out, "+")
+	return "nothing"
 }
 
 // earlierAny also looks at the ancestors (a poisoned ancestor makes a valid descendant fail).
@@ -498,7 +487,10 @@ func chainMove(before, after []string) string {
 	for i < len(before) && i < len(after) && before[i] == after[i] {
 		i++
 	}
-	return fmt.Sprintf("detached%d-attached%d", len(before)-i, len(after)-i)
+	if len(before)-i > 0 {
+		return "old-branch-detached"
+	}
+	return "extended"
 }
 
 func (ct *ctree) parentHash(b int) []byte {
